@@ -344,55 +344,69 @@ func decompressorRejectsOnlyMalformed(c *kit.Ctx) {
 		if !ok {
 			return
 		}
-		ev := returnedError(r)
-		if ev == nil || kit.IsNilConst(kit.Root(ev)) {
+		ev0 := returnedError(r)
+		if ev0 == nil || kit.IsNilConst(kit.Root(ev0)) {
 			return
 		}
-		n++
-		// the reason: the innermost decided condition in front of this return
-		facts := kit.FactsAt(r.Block())
-		good, why := false, "no recognised reason"
-		for _, f := range facts {
-			cmp, isCmp := kit.CanonCmp(f.Cond, f.Pol)
-			if !isCmp {
+		// one verdict per error that can be returned here; each is judged where it was made (the returns of a helper
+		// the body was moved into are merged into one)
+		for _, lf := range valueLeaves(ev0, r.Block()) {
+			if kit.IsNilConst(kit.Root(lf.val)) {
 				continue
 			}
-			// err != nil of a callee
-			if cmp.Op == token.NEQ && kit.IsNilConst(cmp.Y) && kit.IsErrorType(cmp.X.Type()) {
-				if f.If != nil && f.If.Block() == blockBefore(r.Block(), f.If.Block()) {
-					good, why = true, "error of a reader helper or of the codec"
+			at := r.Block()
+			for ph, i := range lf.path {
+				pb := ph.Block().Preds[i]
+				if at == r.Block() || at.Dominates(pb) {
+					at = pb
 				}
 			}
-		}
-		if !good {
-			// the overrun test: running sum > declared block length (both uint32 values read/accumulated here)
+			n++
+			// the reason: the innermost decided condition in front of this return
+			facts := kit.FactsAt(at)
+			good, why := false, "no recognised reason"
 			for _, f := range facts {
-				if f.If == nil || !directlyGuards(f.If, r.Block()) {
-					continue
-				}
 				cmp, isCmp := kit.CanonCmp(f.Cond, f.Pol)
 				if !isCmp {
 					continue
 				}
-				isSum := func(v ssa.Value) bool {
-					_, isPhi := kit.Strip(v).(*ssa.Phi)
-					_, isAdd := kit.Strip(v).(*ssa.BinOp)
-					return isPhi || isAdd
-				}
-				isCodecBound := func(v ssa.Value) bool {
-					call, ok := kit.Strip(v).(*ssa.Call)
-					return ok && call.Call.IsInvoke() && call.Call.Method.Name() == "ChunkLen"
-				}
-				if isCodecBound(cmp.X) || isCodecBound(cmp.Y) {
-					why = "a length is compared with Codec.ChunkLen()"
-					continue
-				}
-				if (cmp.Op == token.GTR || cmp.Op == token.NEQ) && isSum(cmp.X) && !isSum(cmp.Y) || (cmp.Op == token.LSS || cmp.Op == token.NEQ) && isSum(cmp.Y) && !isSum(cmp.X) {
-					good, why = true, "decoded more than the declared block length"
+				// err != nil of a callee
+				if cmp.Op == token.NEQ && kit.IsNilConst(cmp.Y) && kit.IsErrorType(cmp.X.Type()) {
+					if f.If != nil && f.If.Block() == blockBefore(at, f.If.Block()) {
+						good, why = true, "error of a reader helper or of the codec"
+					}
 				}
 			}
+			if !good {
+				// the overrun test: running sum > declared block length (both uint32 values read/accumulated here)
+				for _, f := range facts {
+					if f.If == nil || !directlyGuards(f.If, at) {
+						continue
+					}
+					cmp, isCmp := kit.CanonCmp(f.Cond, f.Pol)
+					if !isCmp {
+						continue
+					}
+					isSum := func(v ssa.Value) bool {
+						_, isPhi := kit.Strip(v).(*ssa.Phi)
+						_, isAdd := kit.Strip(v).(*ssa.BinOp)
+						return isPhi || isAdd
+					}
+					isCodecBound := func(v ssa.Value) bool {
+						call, ok := kit.Strip(v).(*ssa.Call)
+						return ok && call.Call.IsInvoke() && call.Call.Method.Name() == "ChunkLen"
+					}
+					if isCodecBound(cmp.X) || isCodecBound(cmp.Y) {
+						why = "a length is compared with Codec.ChunkLen()"
+						continue
+					}
+					if (cmp.Op == token.GTR || cmp.Op == token.NEQ) && isSum(cmp.X) && !isSum(cmp.Y) || (cmp.Op == token.LSS || cmp.Op == token.NEQ) && isSum(cmp.Y) && !isSum(cmp.X) {
+						good, why = true, "decoded more than the declared block length"
+					}
+				}
+			}
+			c.Check(good, dec, "rejects-only-malformed", r.Pos(), "error return for a recognised reason ("+why+")", "the block-stream reader rejects input for a reason other than a failed read, a failed Decode or an overrun of the declared block length ("+why+"): a stream that a conforming writer produces - incompressible data compresses to more than ChunkLen() bytes per chunk - cannot be read back")
 		}
-		c.Check(good, dec, "rejects-only-malformed", r.Pos(), "error return for a recognised reason ("+why+")", "the block-stream reader rejects input for a reason other than a failed read, a failed Decode or an overrun of the declared block length ("+why+"): a stream that a conforming writer produces - incompressible data compresses to more than ChunkLen() bytes per chunk - cannot be read back")
 	})
 	if n == 0 {
 		c.Unk(dec, "rejects-only-malformed", dec.Pos(), "decompressCellblocks no longer returns errors")
@@ -754,26 +768,28 @@ func readerEndsOnlyWhenTheConnectionFailed(c *kit.Ctx) {
 			return
 		}
 		n++
-		good := false
-		for _, st := range selectArmsAt(r.Block()) {
-			if st.Dir == types.RecvOnly && isLoadOfField(st.Chan, doneF) {
-				good = true
+		// every way to this return - from the entry and from every read - passes fail() or the arm of a select
+		// in which c.done was received (the select may sit in a helper: `for !c.stopped() { ... }`)
+		doneArm := map[*ssa.BasicBlock]bool{}
+		for _, b := range rl.Blocks {
+			for _, st := range selectArmsAt(b) {
+				if st.Dir == types.RecvOnly && isLoadOfField(st.Chan, doneF) {
+					doneArm[b] = true
+				}
 			}
 		}
-		if !good {
-			// every way to this return since the last read passes fail()
-			good = true
-			for _, rc := range kit.Calls(rl, kit.M("region", "*client", "receive")) {
-				e := kit.PathFrom(rc.(ssa.Instruction), kit.PathQuery{
-					Target: func(x ssa.Instruction) bool { return x == ssa.Instruction(r) },
-					Stop: func(x ssa.Instruction) bool {
-						cc, ok := x.(*ssa.Call)
-						return ok && kit.CalleeName(cc) == failName
-					},
-				})
-				if e != nil {
-					good = false
-				}
+		stop := func(x ssa.Instruction) bool {
+			if doneArm[x.Block()] {
+				return true
+			}
+			cc, ok := x.(*ssa.Call)
+			return ok && kit.CalleeName(cc) == failName
+		}
+		target := func(x ssa.Instruction) bool { return x == ssa.Instruction(r) }
+		good := kit.PathFromEntry(rl, kit.PathQuery{Target: target, Stop: stop}) == nil
+		for _, rc := range kit.Calls(rl, kit.M("region", "*client", "receive")) {
+			if kit.PathFrom(rc.(ssa.Instruction), kit.PathQuery{Target: target, Stop: stop}) != nil {
+				good = false
 			}
 		}
 		c.Check(good, rl, "reader-ends-only-when-failed", r.Pos(), "the reader returns only in the <-c.done arm or after fail()", "the reader goroutine can end without the connection having failed (it returns on an ordinary per-call error): the read deadline stays armed but nobody reads, so the timeout never fires, the connection is never failed and every later request on it waits for ever")
@@ -903,6 +919,36 @@ func failedAttemptRelooksUp(c *kit.Ctx) {
 	}
 	dials := kit.Calls(est, hrpcRC+"Dial")
 	sleeps := kit.Calls(est, sleepName)
+	// the address kept in a register (no closure of establishRegion captures it): the phi that merges the
+	// parameter with what the rounds assign
+	var addrPhi *ssa.Phi
+	if addrAlloc == nil {
+		if ap := paramOfType(est, "string", 0); ap != nil {
+			kit.Instrs(est, func(in ssa.Instruction) {
+				if ph, ok := in.(*ssa.Phi); ok && addrPhi == nil {
+					for _, e := range ph.Edges {
+						if e == ssa.Value(ap) {
+							addrPhi = ph
+						}
+					}
+				}
+			})
+		}
+	}
+	if addrAlloc == nil && addrPhi != nil && len(dials) == 1 && len(sleeps) == 1 {
+		e := kit.PathFrom(dials[0], kit.PathQuery{
+			TargetPath: func(x ssa.Instruction, path []*ssa.BasicBlock) bool {
+				if x != sleeps[0].(ssa.Instruction) {
+					return false
+				}
+				v := kit.ResolveAlong(addrPhi, path)
+				k, ok := v.(*ssa.Const)
+				return !(ok && k.Value != nil && k.Value.ExactString() == `""`)
+			},
+		})
+		c.Check(e == nil, est, "failed-attempt-relooks-up", dials[0].Pos(), "every failed attempt clears the address so that the next one looks the region up again", "an establishment attempt can fail and be retried against the same address without consulting hbase:meta again: a region that moved is never found: "+c.BlockPath(e))
+		return
+	}
 	if addrAlloc == nil || len(dials) != 1 || len(sleeps) != 1 {
 		c.Unk(est, "relookup-shape", est.Pos(), "establishRegion no longer has one Dial, one back-off call and an address variable")
 	} else {
